@@ -466,14 +466,22 @@ fn op_issue(i: &Value) -> R<Value> {
 	let mut subject_pub = pk;
 	let mut cur_dns = dns;
 	let mut cur_ips = ips;
+	// `chain_root`: the LAST certificate of a chain of two or more is self-signed (the CA includes its root):
+	// issuer = subject, signed by the key it certifies (the key that signed the certificate below it)
+	let chain_root = i["chain_root"].as_bool().unwrap_or(false);
+	let mut prev_signer: Option<PKey<Private>> = None;
 	for level in 0..chain_len {
-		let signer = PKey::from_ec_key(
-			openssl::ec::EcKey::generate(
-				EcGroup::from_curve_name(Nid::X9_62_PRIME256V1).map_err(e)?.as_ref(),
+		let root_here = chain_root && level > 0 && level + 1 == chain_len;
+		let signer = match (root_here, prev_signer.take()) {
+			(true, Some(k)) => k,
+			_ => PKey::from_ec_key(
+				openssl::ec::EcKey::generate(
+					EcGroup::from_curve_name(Nid::X9_62_PRIME256V1).map_err(e)?.as_ref(),
+				)
+				.map_err(e)?,
 			)
 			.map_err(e)?,
-		)
-		.map_err(e)?;
+		};
 		let cert = make_cert(
 			&subject_pub,
 			&signer,
@@ -482,12 +490,13 @@ fn op_issue(i: &Value) -> R<Value> {
 			if level == 0 { leaf_not_before } else { now - 3600 },
 			if level == 0 { not_after } else { now + 3650 * 86400 },
 			&(if level == 0 { leaf_cn.clone() } else { format!("verif level {level}") }),
-			&format!("verif level {}", level + 1),
+			&format!("verif level {}", if root_here { level } else { level + 1 }),
 			level > 0,
 		)?;
 		pems.push_str(&String::from_utf8_lossy(&cert.to_pem().map_err(e)?));
 		let pubpem = signer.public_key_to_pem().map_err(e)?;
 		subject_pub = PKey::public_key_from_pem(&pubpem).map_err(e)?;
+		prev_signer = Some(signer);
 		// `pad`: make the upper certificates big (many names) so that the chain exceeds common buffer sizes
 		let pad = i["pad"].as_u64().unwrap_or(0);
 		cur_dns = (0..pad).map(|n| format!("padding-{level}-{n:04}.chain-size.verif.invalid")).collect();
